@@ -123,30 +123,14 @@ def Codec.resetDecode (c : Codec) : M Codec :=
 def Codec.fail (c : Codec) (b : Buf) (o : Decoded) : Codec × Decoded × Option Int :=
   ({ c with buf := b, frameLen := 0 }, o, none)
 
-/-- `Decode` after `resetDecode`. Returns the codec, the outcome and — ghost, for `C07_bounded` — the
-argument of `src.Reserve` when it was called. `cap'` is the capacity after that `Reserve`. -/
-def Codec.decodeBody (c : Codec) (cap' : Int) : M (Codec × Decoded × Option Int) := do
-  -- read the mandatory header
-  let readSoFar : Int := frameHeaderLength
-  let r ← c.buf.PrepareRead readSoFar
-  if r.2 then pure (c.fail r.1 .needMore) else
-  let f ← r.1.dataPrefix readSoFar
-  -- read the extended payload length (0, 2 or 8 bytes) and check if within bounds
-  let readSoFar := readSoFar + (← ExtendedPayloadLengthBytes f)
-  let r ← r.1.PrepareRead readSoFar
-  if r.2 then pure (c.fail r.1 .needMore) else
-  let f ← r.1.dataPrefix readSoFar
-  let payloadLength ← PayloadLength f
-  if payloadLength < 0 ∨ payloadLength > c.max then pure (c.fail r.1 .tooBig) else
-  -- read mask if any
-  let masked ← IsMasked f
-  let readSoFar := if masked then readSoFar + frameMaskLength else readSoFar
-  let r ← if masked then r.1.PrepareRead readSoFar else pure (r.1, false)
-  if r.2 then pure (c.fail r.1 .needMore) else
-  let _f ← if masked then r.1.dataPrefix readSoFar else pure f
-  -- read the payload
+/-! `Decode` after `resetDecode`, cut into its four "read …" paragraphs. Each returns the codec, the outcome
+and — ghost, for `C07_bounded` — the argument of `src.Reserve` when it was called. `cap'` is the capacity
+after that `Reserve` (chosen by the runtime). -/
+
+/-- "read the payload": `readSoFar += payloadLength` … `return c.decodeFrame, nil`. -/
+def Codec.readPayload (c : Codec) (b : Buf) (readSoFar payloadLength cap' : Int) : M (Codec × Decoded × Option Int) := do
   let readSoFar := Go.add readSoFar payloadLength
-  let r ← r.1.PrepareRead readSoFar
+  let r ← b.PrepareRead readSoFar
   if r.2 then
     let b ← r.1.Reserve payloadLength cap'
     pure ({ c with buf := b, frameLen := 0 }, .needMore, some payloadLength)
@@ -154,8 +138,90 @@ def Codec.decodeBody (c : Codec) (cap' : Int) : M (Codec × Decoded × Option In
     let f ← r.1.dataPrefix readSoFar
     pure ({ c with buf := r.1, frameLen := f.length, reset := true }, .frame f, none)
 
+/-- "read mask if any". -/
+def Codec.readMask (c : Codec) (b : Buf) (f : FrameBytes) (readSoFar payloadLength cap' : Int) :
+    M (Codec × Decoded × Option Int) := do
+  if (← IsMasked f) then
+    let readSoFar := readSoFar + frameMaskLength
+    let r ← b.PrepareRead readSoFar
+    if r.2 then pure (c.fail r.1 .needMore) else
+    let _f ← r.1.dataPrefix readSoFar
+    c.readPayload r.1 readSoFar payloadLength cap'
+  else c.readPayload b readSoFar payloadLength cap'
+
+/-- "read the extended payload length (0, 2 or 8 bytes) and check if within bounds". -/
+def Codec.readLength (c : Codec) (b : Buf) (f : FrameBytes) (readSoFar cap' : Int) : M (Codec × Decoded × Option Int) := do
+  let readSoFar := readSoFar + (← ExtendedPayloadLengthBytes f)
+  let r ← b.PrepareRead readSoFar
+  if r.2 then pure (c.fail r.1 .needMore) else
+  let f ← r.1.dataPrefix readSoFar
+  let payloadLength ← PayloadLength f
+  if payloadLength < 0 ∨ payloadLength > c.max then pure (c.fail r.1 .tooBig) else
+  c.readMask r.1 f readSoFar payloadLength cap'
+
+/-- "read the mandatory header". -/
+def Codec.decodeBody (c : Codec) (cap' : Int) : M (Codec × Decoded × Option Int) := do
+  let readSoFar : Int := frameHeaderLength
+  let r ← c.buf.PrepareRead readSoFar
+  if r.2 then pure (c.fail r.1 .needMore) else
+  let f ← r.1.dataPrefix readSoFar
+  c.readLength r.1 f readSoFar cap'
+
 def Codec.Decode (c : Codec) (cap' : Int) : M (Codec × Decoded × Option Int) := do
   let c ← c.resetDecode
   c.decodeBody cap'
+
+/-! ## The decoder as a script interpreter (what the driver replays and the theorems quantify over) -/
+
+/-- Operations with the environment's answers: `cap'` is the capacity of `src` after the call (`append`'s choice). -/
+inductive DOp where
+  | feed (bs : List UInt8) (cap' : Int)
+  | read (bs : List UInt8)
+  | decode (cap' : Int)
+  deriving Repr, DecidableEq
+
+def DOp.toSpec : DOp → Spec.WsFrame.Op
+  | .feed bs _ => .feed bs
+  | .read bs => .read bs
+  | .decode _ => .decode
+
+structure DState where
+  c : Codec
+  backlog : List UInt8      -- transport bytes not yet taken by a `ReadFrom`
+  deriving Repr, DecidableEq
+
+/-- A fresh codec over a fresh buffer of capacity `cap` (`NewByteBuffer()` gives 512; `Reserve` may have grown it). -/
+def DState.init (max cap : Int) : DState :=
+  { c := Codec.new { Buf.new with cap := cap } max, backlog := [] }
+
+/-- What the harness prints after a call. -/
+def observe (b : Buf) (o : Spec.WsFrame.Outcome) : M Spec.WsFrame.Obs := do
+  pure { out := o, len := (← b.SaveLen) + (← b.ReadLen) + (← b.WriteLen), reserved := b.Reserved }
+
+/-- One operation: new state, observation, and (ghost) the argument of `Reserve` if `Decode` called it. -/
+def DState.step (m : DState) : DOp → M (DState × Spec.WsFrame.Obs × Option Int)
+  | .feed bs cap' => do
+      let b ← m.c.buf.Write bs cap'
+      pure ({ m with c := { m.c with buf := b } }, ← observe b .ok, none)
+  | .read bs => do
+      let bl := m.backlog ++ bs
+      let r ← m.c.buf.ReadFrom bl
+      pure ({ c := { m.c with buf := r.1 }, backlog := bl.drop r.2 }, ← observe r.1 (.took r.2), none)
+  | .decode cap' => do
+      let r ← m.c.Decode cap'
+      match r.2.1 with
+      | .needMore => pure ({ m with c := r.1 }, ← observe r.1.buf .needMore, r.2.2)
+      | .tooBig => pure ({ m with c := r.1 }, ← observe r.1.buf .tooBig, r.2.2)
+      | .frame fb =>
+          let v ← view fb
+          pure ({ m with c := r.1 }, ← observe r.1.buf (.frame v.1 v.2), r.2.2)
+
+/-- The model's trace for a script (stops at the first panic / inadmissible environment value). -/
+def DState.run : DState → List DOp → M (List (DOp × Spec.WsFrame.Obs × Option Int))
+  | _, [] => pure []
+  | m, op :: rest => do
+      let r ← m.step op
+      let t ← r.1.run rest
+      pure ((op, r.2.1, r.2.2) :: t)
 
 end Sonic.Model.WsFrame
